@@ -114,7 +114,8 @@ def run(ctx):
                                 region_calls.append((x, t))
         inputs_ok = True
         bad_in = None
-        allowed_fields = set(R["parsers"]) | {R["user_autocorrect"], "table"} | set(R["scratch"])
+        letter_tables = {n for n, t in R["sug_fields"].items() if t.startswith("std::collections::HashMap<&") }
+        allowed_fields = set(R["parsers"]) | {R["user_autocorrect"]} | letter_tables | set(R["scratch"])
         for (x, t) in region_calls:
             args = fb.call_args(t)
             for a in args:
